@@ -53,6 +53,21 @@ func goid() int64 {
 
 var errAccept = errors.New("injected accepter failure")
 
+// acceptFailure: what the failing accepter reports - a plain error, or one that calls itself a timeout (an accept
+// deadline that passed): Loop gives either back as it is, it does not go round again
+func (r *runner) acceptFailure() error {
+	if r.nfail.Add(1)%2 == 0 {
+		return &net.OpError{Op: "accept", Net: "tcp", Err: timeoutErr{errAccept}}
+	}
+	return errAccept
+}
+
+type timeoutErr struct{ error }
+
+func (timeoutErr) Timeout() bool   { return true }
+func (timeoutErr) Temporary() bool { return true }
+func (t timeoutErr) Unwrap() error { return t.error }
+
 type accItem struct {
 	ch      channel.Channel
 	err     error
@@ -262,7 +277,7 @@ func (r *runner) doStep(st Step) {
 		}
 		it := accItem{ch: ch}
 		if st.Kind == "thenfail" { // the listener fails right behind this connection: Loop learns of it before the connection's goroutine has run
-			it.thenErr = errAccept
+			it.thenErr = r.acceptFailure()
 		} else if st.Kind == "thenclosing" {
 			it.thenErr = fmt.Errorf("listener: %w", channel.ErrClosed)
 		}
@@ -271,7 +286,7 @@ func (r *runner) doStep(st Step) {
 		if st.Kind == "closing" {
 			r.acc.in <- accItem{err: fmt.Errorf("listener: %w", channel.ErrClosed)}
 		} else {
-			r.acc.in <- accItem{err: errAccept}
+			r.acc.in <- accItem{err: r.acceptFailure()}
 		}
 	case "ctxcancel":
 		r.rec.Log("CtxCancel")
